@@ -55,7 +55,7 @@ def make_core(rng, type_specs, layout, flows, L=0.6, gap_model='flow',
               bypass_fraction=0.03, coolant='const', power_order=1,
               ncell=2, comps=('pins', 'duct', 'cool'), power_scale=1.0,
               setup=None, zero_cells=(), cell_bounds=None, inlet=623.15,
-              asm_power=None):
+              asm_power=None, own_cells=False):
     """type_specs: {name: type dict}; layout: list of (ring, pos, name) for
     occupied positions; flows: {name: kg/s} or list per layout entry."""
     c = base_case(L=L, gap_model=gap_model, coolant=coolant,
@@ -74,8 +74,14 @@ def make_core(rng, type_specs, layout, flows, L=0.6, gap_model='flow',
         npin = cases.n_pins(t['num_rings'])
         tot = (asm_power[i] if asm_power is not None
                else 2.0e4 * npin * power_scale * (0.6 + 0.8 * rng.random()))
+        zci = zc
+        if own_cells:
+            # every assembly has its own power mesh
+            cuts = sorted({round(rng.uniform(0.08, 0.92) * L, 3)
+                           for _ in range(ncell - 1)})
+            zci = [0.0] + cuts + [L]
         c['power'][str(aid)] = cases.random_power(
-            rng, c, aid, name, zc, order=power_order, comps=comps,
+            rng, c, aid, name, zci, order=power_order, comps=comps,
             total=tot, zero_cells=zero_cells)
     return c
 
@@ -193,7 +199,7 @@ def core_lattice(rng, tier):
          [(r, p, 'B' if i in (0, 3) else 'A') for i, (r, p) in enumerate(p7)])
     core('7-missing', {'A': A, 'B': B},
          [(r, p, 'A' if i % 2 else 'B') for i, (r, p) in enumerate(p7)
-          if i not in (2, 5)])
+          if i not in (2, 5)], own_cells=True, ncell=3)
     core('7-dd-unrodded', {'A': A, 'DD': DD, 'U': U},
          [(r, p, ['DD', 'A', 'U', 'A', 'A', 'U', 'A'][i])
           for i, (r, p) in enumerate(p7)])
